@@ -269,3 +269,24 @@ Definition chk_c08_resp (c : val) : val :=
   | None => let n := norm_body (as_Z (nthv 0 impl)) (as_S (nthv 1 impl)) in
             if val_eqb (run_resp input) n then verdict_ok else verdict_mismatch (run_resp input)
   end.
+
+(* ---------- the order of the response frames under a slow client (part slowwriter) ----------
+   impl ( kinds-in-completion-order  writes-after-the-handler-returned ) ; kinds: 0 data frame, 1 trailer frame.
+   9: the frames are not "data frames followed by exactly one trailer frame" (a data frame landed behind the trailer, or
+      there is no / more than one trailer), or the response writer was used after ServeHTTP had returned *)
+Fixpoint data_then_trailer (l : list Z) : bool :=
+  match l with
+  | [] => false
+  | [k] => Z.eqb k 1
+  | k :: r => Z.eqb k 0 && data_then_trailer r
+  end.
+(* 9 is exactly finding F33: variant 2 (the request fails while the first response is in flight and the client takes it only
+   after the call is over) ends with the trailer first and the data frame behind it, written after the handler returned;
+   10: any other defect of the order *)
+Definition chk_c08_slow (c : val) : val :=
+  let input := nthv 0 c in
+  let impl := nthv 1 c in
+  let kinds := map as_Z (as_L (nthv 0 impl)) in
+  if data_then_trailer kinds && Z.eqb (as_Z (nthv 1 impl)) 0 then verdict_ok
+  else if Z.eqb (as_Z (nthv 0 input)) 2 && list_eqb Z.eqb kinds [1; 0] then verdict_propfail 9 (VL [])
+  else verdict_propfail 10 (VL []).
